@@ -430,7 +430,7 @@ func (o rop) String() string {
 
 type rcfg struct {
 	Factory  string // "" ok err nil
-	Fallback string // "" hit miss
+	Fallback string // "" hit miss err
 }
 
 func registryRun(cf rcfg, path []rop) (key, msg, canon string) {
@@ -452,6 +452,8 @@ func registryRun(cf rcfg, path []rop) (key, msg, canon string) {
 		opts = append(opts, router.WithFallback(func(n string) (any, error) { return "fallback-" + n, nil }))
 	case "miss":
 		opts = append(opts, router.WithFallback(func(n string) (any, error) { return nil, nil }))
+	case "err": // a fallback that fails supplies nothing: what happens next is what happens without it
+		opts = append(opts, router.WithFallback(func(n string) (any, error) { return nil, errors.New("fallback: not mine") }))
 	}
 	r := router.NewRouter(opts...)
 	model := map[string]string{}
@@ -550,7 +552,7 @@ func registry(s *hx.Seq) {
 		depth = 6
 	}
 	for _, fa := range []string{"", "ok", "err", "nil"} {
-		for _, fb := range []string{"", "hit", "miss"} {
+		for _, fb := range []string{"", "hit", "miss", "err"} {
 			if !s.Own() {
 				continue
 			}
